@@ -950,10 +950,10 @@ def gen_cases(tier, rng):
         cases += gen_str(cor, rng, 25) + gen_m2g(cor, rng, 60) + gen_ih(rng, 600)
         cases += gen_histories(cor, rng, 40, 120) + gen_degenerate(rng)
     else:
-        cases += gen_four(rng, 30000) + gen_random(rng, 12000) + gen_malformed(rng, 6000)
-        cases += gen_opts_exhaustive(rng) + gen_opts_arom(rng, 2000) + gen_opts_random(rng, 8000, 4000)
+        cases += gen_four(rng, 15000) + gen_random(rng, 8000) + gen_malformed(rng, 4000)
+        cases += gen_opts_exhaustive(rng) + gen_opts_arom(rng, 1500) + gen_opts_random(rng, 5000, 2500)
         cor = gen_corpus(rng, None, 2)
         cases += cor + add_corpus_opts(cor, rng, 0.5)
-        cases += gen_str(cor, rng, 300) + gen_m2g(cor, rng, 600) + gen_ih(rng, 8000)
+        cases += gen_str(cor, rng, 300) + gen_m2g(cor, rng, 600) + gen_ih(rng, 4000)
         cases += gen_histories(cor, rng, 300, 1500) + gen_degenerate(rng)
     return cases
